@@ -1227,6 +1227,17 @@ func c15Lock(c *Ctx, prog *Prog, fcfg *FCfg, flags []string) {
 			c.Res.Probes["read-only-attach-attempts"]++
 			for _, ev := range vos.W.Events {
 				if ev.Seq > a.startSeq && ev.Pid == a.pid && ev.Err == "" && (strings.HasPrefix(ev.Path, "ps/") || ev.Path == "ps") {
+					// Tolerated: restoring the forks of a call mapped over an empty or
+					// null collection writes that fork's _disabled marker and null
+					// _outs (Fork.writeDisable via RestoreForks) even when attached
+					// read-only - the same bytes the owner writes, nothing is started,
+					// nothing removed.  Everything else is a write.
+					base := path.Base(ev.Path)
+					if ev.Path != "ps/_lock" && (ev.Op == "mkdir" || ev.Op == "mkdirall" ||
+						(ev.Op == "write" && (base == "_outs" || base == "_disabled") && strings.Contains(ev.Path, "/fork"))) {
+						c.Res.Probes["read-only-visitor-restored-an-empty-fork"]++
+						continue
+					}
 					if ev.Path == "ps/_lock" {
 						foreignRemoval = true
 					}
